@@ -121,7 +121,7 @@ pub enum ReverseStep {
     LoopNextBack(Loop),
     PopSpecial,
     PushSpecial(Special),
-    DropLocal(usize),
+    RestoreLocals(Xvec),
     SwapRef(CellRef, Cell),
 }
 
@@ -1094,13 +1094,18 @@ impl State {
                 let idx = *i;
                 let val = self.pop_data()?;
                 let frame = self.top_frame()?;
+                let old_locals = frame.locals.clone();
+                // an earlier `local` of this function may have been skipped
+                while frame.locals.len() < idx {
+                    frame.locals.push_back_mut(NIL);
+                }
                 if idx < frame.locals.len() {
                     frame.locals[idx] = val;
                 } else {
                     frame.locals.push_back_mut(val);
                 }
                 if self.is_recording() {
-                    self.add_reverse_step(ReverseStep::DropLocal(idx));
+                    self.add_reverse_step(ReverseStep::RestoreLocals(old_locals));
                 }
                 self.next_ip();
             }
@@ -1267,9 +1272,9 @@ impl State {
                     return Err(Xerr::unbalanced_vec_builder());
                 }
             }
-            ReverseStep::DropLocal(_) => {
+            ReverseStep::RestoreLocals(old_locals) => {
                 let f = self.top_frame()?;
-                f.locals.drop_last_mut();
+                f.locals = old_locals;
             }
             ReverseStep::SwapRef(cref, val) => {
                 let idx = cref.index();
